@@ -1335,7 +1335,9 @@ class DefaultCapabilities(SpaceSeparatedListOfCapabilities):
     # it's still an improvement, raising the bar for potential crackers.
     def setValue(self, v, allowDefaultOwner=conf.allowDefaultOwner):
         registry.SpaceSeparatedListOfStrings.setValue(self, v)
-        if '-owner' not in self.value and not allowDefaultOwner:
+        # CapabilitySet.__contains__ is also true when the inverse capability
+        # ('owner') is in the set, so look at the elements themselves.
+        if '-owner' not in set(self.value) and not allowDefaultOwner:
             print('*** You must run supybot with the --allow-default-owner')
             print('*** option in order to allow a default capability of owner.')
             print('*** Don\'t do that, it\'s dumb.')
